@@ -412,6 +412,8 @@ class Effect(AoE2Object, TriggerComponent):
 
         return_string = ""
         for attribute in attributes_list:
+            if self._armour_attack_flag and attribute == "quantity":
+                continue  # never displayed; reading it merges armour_attack_class/_quantity, which may be unset
             val = getattr(self, attribute)
             if not self._should_be_displayed(attribute, val):
                 continue
